@@ -33,6 +33,7 @@ type Raw struct {
 	StoreList []string
 	TLogs     []string // file names under translogs/ (*.log)
 	PLogs     []string // priority logs (*.plg)
+	PLogged   []sop.RegistryPayload[sop.Handle] // decoded payloads of the priority logs, in file-name order
 	Other     []string
 }
 
@@ -58,6 +59,13 @@ func ReadRaw(folder string) (*Raw, error) {
 				}
 				if strings.HasSuffix(q, ".plg") {
 					r.PLogs = append(r.PLogs, info.Name())
+					if b, err := os.ReadFile(q); err == nil && len(b) >= 4 {
+						b = b[:len(b)-4] // fs.priorityLog.Add appends a CRC trailer (marshalData)
+						var logged []sop.RegistryPayload[sop.Handle]
+						if encoding.DefaultMarshaler.Unmarshal(b, &logged) == nil {
+							r.PLogged = append(r.PLogged, logged...)
+						}
+					}
 				} else {
 					r.TLogs = append(r.TLogs, info.Name())
 				}
